@@ -1,5 +1,5 @@
 CONSTANTS
-  Impl = "asis"
+  Impl = "current"
   Space = "quick"
 INIT Init
 NEXT Next
